@@ -18,6 +18,7 @@ import (
 	"context"
 	"encoding/json"
 	"fmt"
+	"os"
 	"reflect"
 	"sort"
 	"strings"
@@ -28,6 +29,7 @@ import (
 	"gonum.org/v1/gonum/graph/topo"
 
 	"go.opentelemetry.io/collector/component"
+	"go.opentelemetry.io/collector/component/componentstatus"
 	"go.opentelemetry.io/collector/config/configtelemetry"
 	"go.opentelemetry.io/collector/confmap"
 	"go.opentelemetry.io/collector/connector"
@@ -56,6 +58,9 @@ type sWorld struct {
 	recvMap   *sharedcomponent.Map[component.ID, *sComp]
 	expMap    *sharedcomponent.Map[component.ID, *sComp]
 	keys      map[string]bool
+	// watched[watcher extension][source instance] = the statuses that watcher was told about that instance, in order
+	// (every extension of this unit is a status watcher: C11's clause about what watchers are shown, at service level)
+	watched map[string]map[string][]componentstatus.Status
 }
 
 var sW *sWorld
@@ -90,6 +95,80 @@ type sExt struct {
 }
 
 func (e *sExt) Dependencies() []component.ID { return e.deps }
+
+func (e *sExt) ComponentStatusChanged(source *componentstatus.InstanceID, event *componentstatus.Event) {
+	m := sW.watched[e.key]
+	if m == nil {
+		m = map[string][]componentstatus.Status{}
+		sW.watched[e.key] = m
+	}
+	var pls []string
+	source.AllPipelineIDs(func(p pipeline.ID) bool { pls = append(pls, p.String()); return true })
+	sort.Strings(pls)
+	k := source.Kind().String() + "/" + source.ComponentID().String() + "@" + strings.Join(pls, ",")
+	m[k] = append(m[k], event.Status())
+}
+
+// sLegal: the documented state diagram (docs/component-status.md)
+var sLegal = map[componentstatus.Status][]componentstatus.Status{
+	componentstatus.StatusNone:             {componentstatus.StatusStarting},
+	componentstatus.StatusStarting:         {componentstatus.StatusOK, componentstatus.StatusRecoverableError, componentstatus.StatusPermanentError, componentstatus.StatusFatalError, componentstatus.StatusStopping},
+	componentstatus.StatusOK:               {componentstatus.StatusRecoverableError, componentstatus.StatusPermanentError, componentstatus.StatusFatalError, componentstatus.StatusStopping},
+	componentstatus.StatusRecoverableError: {componentstatus.StatusOK, componentstatus.StatusPermanentError, componentstatus.StatusFatalError, componentstatus.StatusStopping},
+	componentstatus.StatusPermanentError:   {componentstatus.StatusStopping},
+	componentstatus.StatusStopping:         {componentstatus.StatusRecoverableError, componentstatus.StatusPermanentError, componentstatus.StatusFatalError, componentstatus.StatusStopped},
+}
+
+// sWatcherOracle: for every instance, what EACH watcher extension was shown is a path of the state diagram that begins with
+// Starting, and every watcher was shown the same.
+func sWatcherOracle(d string, add func(sig, what string)) {
+	var ws []string
+	for w := range sW.watched {
+		ws = append(ws, w)
+	}
+	sort.Strings(ws)
+	srcs := map[string]bool{}
+	for _, w := range ws {
+		for k := range sW.watched[w] {
+			srcs[k] = true
+		}
+	}
+	// every extension that exists is a watcher, also one that was told nothing
+	for k := range sW.keys {
+		if strings.HasPrefix(k, "ext/") && sW.watched[k] == nil {
+			ws = append(ws, k)
+		}
+	}
+	sort.Strings(ws)
+	var ss []string
+	for k := range srcs {
+		ss = append(ss, k)
+	}
+	sort.Strings(ss)
+	for _, src := range ss {
+		var first []componentstatus.Status
+		for i, w := range ws {
+			seq := sW.watched[w][src]
+			cur := componentstatus.StatusNone
+			for j, st := range seq {
+				ok := false
+				for _, n := range sLegal[cur] {
+					ok = ok || n == st
+				}
+				if !ok {
+					add("watcher-shown-illegal-sequence", fmt.Sprintf("%s: watcher %s was shown %v for instance %s: event #%d (%v) is not a legal successor of %v", d, w, seq, src, j, st, cur))
+					break
+				}
+				cur = st
+			}
+			if i == 0 {
+				first = seq
+			} else if fmt.Sprint(seq) != fmt.Sprint(first) {
+				add("watchers-shown-different-sequences", fmt.Sprintf("%s: for instance %s watcher %s was shown %v, watcher %s %v", d, src, ws[0], first, w, seq))
+			}
+		}
+	}
+}
 
 var (
 	sT  = component.MustNewType("vv")
@@ -322,7 +401,7 @@ func sCID(s string) component.ID {
 }
 
 func sBuild(c sCase) (*Service, error) {
-	sW = &sWorld{failStart: map[string]bool{}, failStop: map[string]bool{}, deps: c.Deps, keys: map[string]bool{},
+	sW = &sWorld{failStart: map[string]bool{}, failStop: map[string]bool{}, deps: c.Deps, keys: map[string]bool{}, watched: map[string]map[string][]componentstatus.Status{},
 		recvMap: sharedcomponent.NewMap[component.ID, *sComp](), expMap: sharedcomponent.NewMap[component.ID, *sComp]()}
 	for _, k := range c.FailStart {
 		sW.failStart[k] = true
@@ -386,6 +465,10 @@ func sRun(c sCase) [][2]string {
 	stopErr := srv.Shutdown(context.Background())
 	ev := sW.events
 	d += fmt.Sprintf(" events=%v start-error=%v shutdown-error=%v", ev, startErr, stopErr)
+	if sProp == "C11" {
+		sWatcherOracle(d, add)
+		return out
+	}
 	startAt, stopAt := map[string]int{}, map[string]int{}
 	starts, stops := map[string]int{}, map[string]int{}
 	for i, e := range ev {
@@ -566,8 +649,15 @@ func sDAGs(xs []string) []map[string][]string {
 	return out
 }
 
+// sProp: the same driver serves C10 (life-cycle order) and, as unit "service-watchers", C11 (what status watchers are shown)
+var sProp = "C10"
+
 func TestVerifService(t *testing.T) {
-	ctx := vr.Start("C10", "service")
+	unit := "service"
+	if strings.Contains(os.Getenv("VERIF_PARAMS"), "prop=C11") {
+		sProp, unit = "C11", "service-watchers"
+	}
+	ctx := vr.Start(sProp, unit)
 	if ctx == nil {
 		t.Skip("not driven")
 	}
